@@ -313,6 +313,13 @@ func (kr *KeyRegistry) LatestDataKey() (*pb.DataKey, error) {
 		// nil is for no encryption.
 		return nil, nil
 	}
+	if kr.opt.ReadOnly {
+		// A read-only registry has no file handle to persist a new data key through, and
+		// nothing is encrypted anew in read-only mode: hand out the newest existing key.
+		kr.RLock()
+		defer kr.RUnlock()
+		return kr.dataKeys[kr.nextKeyID], nil
+	}
 	// validKey return datakey if the last generated key duration less than
 	// rotation duration.
 	validKey := func() (*pb.DataKey, bool) {
